@@ -16,7 +16,7 @@ namespace Parmcb.C02
 open Parmcb
 
 theorem c02_search_value (g : Graph) (hs : g.simpleB = true) (hp : g.positiveB = true) (S hidden : List Nat)
-    (pick : List Nat → Nat) (hpick : PickOK pick) (limit : Option Int) (a b : Nat)
+    (pick : Pick) (hpick : PickOK pick) (limit : Option Int) (a b : Nat)
     (ha : a < 2 * g.n) (hb : b < 2 * g.n) (hab : a ≠ b) :
     (∀ D, IsDist (sgAdjHidden g S hidden) a b D → (∀ l, limit = some l → D < l) →
         biDijkstra (sgAdjHidden g S hidden) pick limit a b = some D) ∧
@@ -28,11 +28,11 @@ theorem c02_search_value (g : Graph) (hs : g.simpleB = true) (hp : g.positiveB =
 /-- the two concrete heaps the driver executes are admissible -/
 theorem c02_picks_ok : PickOK pickHead ∧ PickOK pickLast := by
   constructor
-  · intro l hl
+  · intro _ l hl
     cases l with
     | nil => exact absurd rfl hl
     | cons x r => simp [pickHead]
-  · intro l hl
+  · intro _ l hl
     unfold pickLast
     rw [List.getLastD_eq_getLast?]
     cases h : l.getLast? with
